@@ -99,7 +99,7 @@ func QRstep(H, U Matrix, p, q int, inSitu *InSitu) {
     givensRotation.ApplyHessenbergLeft(H22, c, s, i, i+1, t1, t2)
     givensRotation.ApplyHessenbergLeft(H23, c, s, i, i+1, t1, t2)
     // multiply with Givens matrix (H G)
-    givensRotation.ApplyHessenbergRight(H12, c, s, i, i+1, t1, t2)
+    givensRotation.ApplyRight(H12, c, s, i, i+1, t1, t2)
     givensRotation.ApplyHessenbergRight(H22, c, s, i, i+1, t1, t2)
     if u != nil {
       givensRotation.ApplyRight(u, c, s, i, i+1, t1, t2)
